@@ -119,6 +119,7 @@ def resultOf (w : World) (a : Action) (w' : World) : String :=
            else (match p.su, p.ongoing with
                  | .loop, .cget .. => "stuck"
                  | _, _ => "ok") ++ exitS)
+      | .expire => "idle" ++ exitS
       | .wait =>
         if p.celestiaHeld then "err:busy"
         else (if hasSleeper p then "ok" else "idle") ++ exitS
@@ -262,7 +263,17 @@ def run (lines : Array String) : Driver.Report := Id.run do
                  else (w2, "ok:none", st.tampered, st.saved, st.foreign))
           | _ =>
             match parseAction rest with
-            | some a =>
+            | some a0 =>
+              -- durations are not modelled: whether a bounded confirmation expires during a
+              -- (stretched) poll interval is read off the implementation's answer
+              let timedSleep := match w.proc with
+                | some p => (match p.su, p.ongoing with
+                  | .lsleep .., _ => !p.celestiaHeld
+                  | .loop, .fsleep .. => true
+                  | _, _ => false)
+                | none => false
+              let isWait := match a0 with | .wait => true | _ => false
+              let a := if isWait && timedSleep && impl.startsWith "idle" then Action.expire else a0
               let w' := step w a
               (w', resultOf w a w', st.tampered, st.saved, st.foreign)
             | none => (w, "bad-op", st.tampered, st.saved, st.foreign)
@@ -277,6 +288,8 @@ def run (lines : Array String) : Driver.Report := Id.run do
         if rest.headD "" = "bcast" ∧ res.startsWith "ok" then r := r.bump s!"bcast_{rest.getD 1 ""}"
         if rest.headD "" = "gettx" then r := r.bump s!"gettx_{res}_at_{phase w}"
         if rest.headD "" = "giveup" then r := r.bump s!"giveup_{res}_at_{phase w}"
+        if rest.headD "" = "wait" ∧ res.startsWith "idle" ∧ (phase w = "last_sleep" ∨ phase w = "fconf_sleep") then
+          r := r.bump s!"expire_at_{phase w}"
         if rest.headD "" = "restart" ∧ res = "ok" then
           r := r.bump s!"restart_file_{(fmtContent "missing" w.file |>.splitOn ":").headD ""}_tmp_{(fmtContent "-" w.tmp |>.splitOn ":").headD ""}"
         -- monitors: the C11 spec on the implementation's own report
